@@ -1201,7 +1201,7 @@ theorem lookup_assocInsert {α} (l : List (String × α)) (k : String) (v : α) 
   induction l with
   | nil =>
     by_cases h : y = k
-    · subst h; simp [assocInsert, List.lookup_cons]
+    · subst h; simp [assocInsert]
     · have : (y == k) = false := by simpa using h
       simp [assocInsert, List.lookup_cons, this, h]
   | cons p rest ih =>
@@ -1210,7 +1210,7 @@ theorem lookup_assocInsert {α} (l : List (String × α)) (k : String) (v : α) 
     by_cases hk : k' = k
     · subst hk
       by_cases hy : y = k'
-      · subst hy; simp [List.lookup_cons]
+      · subst hy; simp
       · have : (y == k') = false := by simpa using hy
         simp [List.lookup_cons, this, hy]
     · simp only [hk, if_false, List.lookup_cons, ih]
@@ -1247,7 +1247,7 @@ theorem lookup_isSome_iff {α} (l : List (String × α)) (x : String) :
   | cons p rest ih =>
     obtain ⟨k, v⟩ := p
     by_cases h : x = k
-    · subst h; simp [List.lookup_cons]
+    · subst h; simp
     · have : (x == k) = false := by simpa using h
       simp [List.lookup_cons, this, ih, h]
 
@@ -1398,6 +1398,278 @@ theorem storeRel_grows : StoreRel Store.Grows where
     exact this
   define := Store.grows_define
   newFrame := Store.grows_newFrame
+
+end Interp
+namespace Lib
+open Interp
+
+/-! ## C12: binding lists as finite maps -/
+
+theorem lookup_append' {α} (y : String) (l₁ l₂ : List (String × α)) :
+    (l₁ ++ l₂).lookup y = match l₁.lookup y with | some a => some a | none => l₂.lookup y := by
+  induction l₁ with
+  | nil => simp
+  | cons p l ih =>
+    obtain ⟨k, b⟩ := p
+    simp only [List.cons_append, List.lookup_cons]
+    cases y == k <;> simp [ih]
+
+theorem lookup_single {α} (y k : String) (v : α) : [(k, v)].lookup y = if y = k then some v else none := by
+  by_cases h : y = k
+  · subst h; simp
+  · have : (y == k) = false := by simpa using h
+    simp [List.lookup_cons, this, h]
+
+theorem asMap_cons (p : String × Value) (rest : S.Bindings) (x : String) :
+    S.asMap (p :: rest) x = match S.asMap rest x with
+      | some v => some v
+      | none => if x = p.1 then some p.2 else none := by
+  unfold S.asMap
+  rw [List.reverse_cons, lookup_append', lookup_single]
+  cases List.lookup x (List.reverse rest) <;> rfl
+
+theorem asMap_append (a b : S.Bindings) (x : String) :
+    S.asMap (a ++ b) x = match S.asMap b x with
+      | some v => some v
+      | none => S.asMap a x := by
+  unfold S.asMap
+  rw [List.reverse_append, lookup_append']
+  cases List.lookup x (List.reverse b) <;> rfl
+
+/-- pouring a binding list into an association map: the last binding of a name wins -/
+theorem foldl_assocInsert_lookup (bs : S.Bindings) (acc : List (String × Value)) (x : String) :
+    (bs.foldl (fun a p => assocInsert a p.1 p.2) acc).lookup x =
+      match S.asMap bs x with
+      | some v => some v
+      | none => acc.lookup x := by
+  induction bs generalizing acc with
+  | nil => simp [S.asMap]
+  | cons p rest ih =>
+    rw [List.foldl_cons, ih, asMap_cons, lookup_assocInsert]
+    cases S.asMap rest x <;> simp
+    split <;> rfl
+
+theorem foldl_assocInsert_nodup (bs : S.Bindings) (acc : List (String × Value))
+    (h : (acc.map Prod.fst).Nodup) :
+    ((bs.foldl (fun a p => assocInsert a p.1 p.2) acc).map Prod.fst).Nodup := by
+  induction bs generalizing acc with
+  | nil => exact h
+  | cons p rest ih => exact ih _ (nodup_assocInsert _ _ _ h)
+
+theorem lookup_eq_none_of_not_mem {α} {l : List (String × α)} {x : String} (h : x ∉ l.map Prod.fst) :
+    l.lookup x = none := by
+  cases hl : l.lookup x with
+  | none => rfl
+  | some v =>
+    have := (lookup_isSome_iff l x).1 (by simp [hl])
+    exact absurd this h
+
+/-- with no name bound twice, the last binding of a name is also the first -/
+theorem asMap_eq_lookup {bs : S.Bindings} (h : S.Admissible bs) (x : String) :
+    S.asMap bs x = bs.lookup x := by
+  induction bs with
+  | nil => rfl
+  | cons p rest ih =>
+    obtain ⟨k, v⟩ := p
+    have hn : k ∉ rest.map Prod.fst ∧ (rest.map Prod.fst).Nodup := by
+      simpa [S.Admissible] using h
+    rw [asMap_cons, ih hn.2]
+    by_cases hx : x = k
+    · subst hx
+      rw [lookup_eq_none_of_not_mem hn.1]
+      simp
+    · have : (x == k) = false := by simpa using hx
+      simp only [List.lookup_cons, this, hx, if_false]
+      cases List.lookup x rest <;> rfl
+
+theorem lookup_eq_some_iff_mem {bs : S.Bindings} (h : S.Admissible bs) (x : String) (v : Value) :
+    bs.lookup x = some v ↔ (x, v) ∈ bs := by
+  induction bs with
+  | nil => simp
+  | cons p rest ih =>
+    obtain ⟨k, w⟩ := p
+    have hn : k ∉ rest.map Prod.fst ∧ (rest.map Prod.fst).Nodup := by
+      simpa [S.Admissible] using h
+    by_cases hx : x = k
+    · subst hx
+      simp only [List.lookup_cons, beq_self_eq_true, Option.some.injEq, List.mem_cons, Prod.mk.injEq,
+        true_and]
+      constructor
+      · intro e; exact .inl e.symm
+      · rintro (e | hm)
+        · exact e.symm
+        · exact absurd (List.mem_map.2 ⟨(x, v), hm, rfl⟩) hn.1
+    · have : (x == k) = false := by simpa using hx
+      simp only [List.lookup_cons, this, ih hn.2, List.mem_cons, Prod.mk.injEq, hx, false_and, false_or]
+
+/-- an admissible binding list is the same finite map in every order -/
+theorem asMap_perm {a b : S.Bindings} (h : a.Perm b) (ha : S.Admissible a) (x : String) :
+    S.asMap a x = S.asMap b x := by
+  have hb : S.Admissible b := (h.map Prod.fst).nodup_iff.1 ha
+  rw [asMap_eq_lookup ha, asMap_eq_lookup hb]
+  cases hl : a.lookup x with
+  | some v =>
+    exact ((lookup_eq_some_iff_mem hb x v).2 (h.mem_iff.1 ((lookup_eq_some_iff_mem ha x v).1 hl))).symm
+  | none =>
+    cases hl' : b.lookup x with
+    | none => rfl
+    | some v =>
+      have := (lookup_eq_some_iff_mem ha x v).2 (h.mem_iff.2 ((lookup_eq_some_iff_mem hb x v).1 hl'))
+      rw [hl] at this; cases this
+
+
+/-- what defining a list of bindings in frame `ρ` does to the store -/
+structure DefinedIn (σ σ' : Store) (ρ : Nat) (m : String → Option Value) : Prop where
+  other_frames : ∀ i, i ≠ ρ → σ'.frames[i]? = σ.frames[i]?
+  parent : ∀ i : Nat, σ'.frames[i]?.map Frame.parent = σ.frames[i]?.map Frame.parent
+  size : σ'.frames.size = σ.frames.size
+  vecs : σ'.vecs = σ.vecs
+  out : σ'.out = σ.out
+  ticks : σ'.ticks = σ.ticks
+  bindings : ρ < σ.frames.size → ∀ x, σ'.binding ρ x = S.override m (σ.binding ρ) x
+
+theorem foldl_define_spec (ρ : Nat) (defs : S.Bindings) (σ : Store) :
+    DefinedIn σ (defs.foldl (fun σ p => σ.define ρ p.1 p.2) σ) ρ (S.asMap defs) := by
+  induction defs generalizing σ with
+  | nil => exact ⟨fun _ _ => rfl, fun _ => rfl, rfl, rfl, rfl, rfl, fun _ x => by simp [S.override, S.asMap]⟩
+  | cons p rest ih =>
+    rw [List.foldl_cons]
+    have h := ih (σ.define ρ p.1 p.2)
+    have hd := Store.sameExceptBinding_define σ ρ p.1 p.2
+    refine ⟨fun i hi => (h.other_frames i hi).trans (hd.other_frames i hi),
+      fun i => (h.parent i).trans (Store.define_parent_map σ ρ p.1 p.2 i),
+      h.size.trans hd.frames_size, h.vecs.trans hd.vecs, h.out.trans hd.out, h.ticks.trans hd.ticks, ?_⟩
+    intro hρ x
+    rw [h.bindings (by rw [hd.frames_size]; exact hρ) x]
+    simp only [S.override, asMap_cons, Store.binding_define]
+    cases S.asMap rest x <;> simp [hρ]
+    split <;> rfl
+
+end Lib
+
+namespace Interp
+
+/-- fuel for a list of import sets -/
+def fuelNeededAll : List ImportSet → Nat
+  | [] => 1
+  | s :: rest => max (S.fuelNeeded s) (fuelNeededAll rest) + 1
+
+theorem denote_congr {ex ex' : LibName → Option S.Bindings} (h : ∀ n, ex' n = ex n) (s : ImportSet) :
+    S.denote s ex' = S.denote s ex := by
+  induction s with
+  | direct name loc => exact h name
+  | only sub ids ih => simp [S.denote, ih]
+  | except sub ids ih => simp [S.denote, ih]
+  | «prefix» sub p ih => simp [S.denote, ih]
+  | rename sub pairs ih => simp [S.denote, ih]
+
+theorem denoteAll_congr {ex ex' : LibName → Option S.Bindings} (h : ∀ n, ex' n = ex n) (sets : List ImportSet) :
+    S.denoteAll sets ex' = S.denoteAll sets ex := by
+  induction sets with
+  | nil => rfl
+  | cons s rest ih => simp only [S.denoteAll, denote_congr h s, ih]
+
+/-- the conclusion for a list of sets -/
+structure ImportSetsSpec (st st' : State) : Prop where
+  same : SameButInstances st st'
+  exports : ∀ n, exportsOf st' n = exportsOf st n
+  grow : ∀ n d, libLookup st.instances n = some d → libLookup st'.instances n = some d
+
+theorem importSets_spec : ∀ (sets : List ImportSet) (fuel : Nat) (st : State) (acc : List (String × Value))
+    (bs : S.Bindings), fuelNeededAll sets ≤ fuel → (∀ s ∈ sets, S.leaf s ∉ st.inProgress) →
+    S.denoteAll sets (exportsOf st) = some bs →
+    ∃ st', evalImportSets fuel st sets acc =
+        (.ok (bs.foldl (fun a p => assocInsert a p.1 p.2) acc), st') ∧ ImportSetsSpec st st' := by
+  intro sets
+  induction sets with
+  | nil =>
+    intro fuel st acc bs hf _ hd
+    obtain ⟨fuel, rfl⟩ : ∃ k, fuel = k + 1 := ⟨fuel - 1, by simp [fuelNeededAll] at hf; omega⟩
+    simp only [S.denoteAll, Option.some.injEq] at hd
+    subst hd
+    exact ⟨st, by rw [evalImportSets]; rfl, rfl, fun _ => rfl, fun _ _ h => h⟩
+  | cons s rest ih =>
+    intro fuel st acc bs hf hip hd
+    obtain ⟨fuel, rfl⟩ : ∃ k, fuel = k + 1 := ⟨fuel - 1, by simp [fuelNeededAll] at hf; omega⟩
+    have hf1 : S.fuelNeeded s ≤ fuel := by simp [fuelNeededAll] at hf; omega
+    have hf2 : fuelNeededAll rest ≤ fuel := by simp [fuelNeededAll] at hf; omega
+    simp only [S.denoteAll] at hd
+    cases hds : S.denote s (exportsOf st) with
+    | none => simp [hds] at hd
+    | some a =>
+      cases hdr : S.denoteAll rest (exportsOf st) with
+      | none => simp [hds, hdr] at hd
+      | some b =>
+        simp only [hds, hdr, Option.some.injEq] at hd
+        subst hd
+        obtain ⟨st1, h1⟩ := importSet_spec s fuel st a hf1 (hip s (by simp)) hds
+        have hip1 : ∀ s' ∈ rest, S.leaf s' ∉ st1.inProgress := by
+          intro s' hs'
+          have : st1.inProgress = st.inProgress := by rw [h1.same]
+          rw [this]; exact hip s' (by simp [hs'])
+        obtain ⟨st2, h2, sp2⟩ := ih fuel st1 (a.foldl (fun a p => assocInsert a p.1 p.2) acc) b hf2 hip1
+          (by rw [denoteAll_congr h1.exports]; exact hdr)
+        refine ⟨st2, ?_, ?_, fun n => (sp2.exports n).trans (h1.exports n),
+          fun n d h => sp2.grow n d (h1.grow n d h)⟩
+        · rw [evalImportSets, h1.eval]
+          simp only [h2, List.foldl_append]
+        · have e1 := h1.same
+          have e2 := sp2.same
+          unfold SameButInstances at *
+          rw [e2, e1]
+
+
+theorem permOpt_map {a b : Option S.Bindings} (h : S.PermOpt a b) (f : S.Bindings → S.Bindings)
+    (hf : ∀ x y : S.Bindings, x.Perm y → (f x).Perm (f y)) : S.PermOpt (a.map f) (b.map f) := by
+  cases a <;> cases b <;> simp_all [S.PermOpt]
+
+theorem denote_perm {ex ex' : LibName → Option S.Bindings} (h : S.PermExports ex ex') (s : ImportSet) :
+    S.PermOpt (S.denote s ex) (S.denote s ex') := by
+  induction s with
+  | direct name loc => exact h name
+  | only sub ids ih => exact permOpt_map ih _ (fun _ _ hp => hp.filter _)
+  | except sub ids ih => exact permOpt_map ih _ (fun _ _ hp => hp.filter _)
+  | «prefix» sub p ih => exact permOpt_map ih _ (fun _ _ hp => hp.map _)
+  | rename sub pairs ih => exact permOpt_map ih _ (fun _ _ hp => hp.map _)
+
+/-- the union map of an admissible declaration does not depend on the order of the export lists -/
+theorem denoteAll_perm {ex ex' : LibName → Option S.Bindings} (h : S.PermExports ex ex') :
+    ∀ (sets : List ImportSet), S.AdmissibleAll sets ex →
+    match S.denoteAll sets ex, S.denoteAll sets ex' with
+    | some a, some b => ∀ x, S.asMap a x = S.asMap b x
+    | none, none => True
+    | _, _ => False := by
+  intro sets
+  induction sets with
+  | nil => intro _; simp [S.denoteAll]
+  | cons s rest ih =>
+    intro hadm
+    have ih' := ih (fun s' hs' => hadm s' (by simp [hs']))
+    have hs := denote_perm h s
+    have hadm_s := hadm s (by simp)
+    simp only [S.denoteAll]
+    cases h1 : S.denote s ex with
+    | none =>
+      cases h2 : S.denote s ex' with
+      | none => simp
+      | some b => simp [h1, h2, S.PermOpt] at hs
+    | some a =>
+      cases h2 : S.denote s ex' with
+      | none => simp [h1, h2, S.PermOpt] at hs
+      | some b =>
+        rw [h1, h2] at hs
+        cases h3 : S.denoteAll rest ex with
+        | none =>
+          cases h4 : S.denoteAll rest ex' with
+          | none => simp
+          | some d => simp [h3, h4] at ih'
+        | some c =>
+          cases h4 : S.denoteAll rest ex' with
+          | none => simp [h3, h4] at ih'
+          | some d =>
+            simp only [h3, h4] at ih'
+            intro x
+            simp only [Lib.asMap_append, ih' x, Lib.asMap_perm hs (hadm_s a h1) x]
 
 end Interp
 end Ruschm
